@@ -259,6 +259,12 @@ func (b *c24block) header(parent *types.Header, salt byte) *types.Header {
 		must(h.Digest.Add(types.ConsensusDigest{ConsensusEngineID: types.BabeEngineID, Data: []byte{9}}))
 	case "tampered":
 		sig[int(salt)%len(sig)] ^= 0x04
+	case "inserted-seal-item":
+		// a seal-typed item inserted after sealing, in front of the author's seal: the
+		// author's signature does not cover this header (header without its last item)
+		must(h.Digest.Add(types.SealDigest{ConsensusEngineID: types.BabeEngineID, Data: []byte{salt, 1, 2, 3}}))
+	case "inserted-foreign-seal-item":
+		must(h.Digest.Add(types.SealDigest{ConsensusEngineID: types.GrandpaEngineID, Data: append([]byte{salt}, sig[:20]...)}))
 	}
 	if b.sealMode == "wrong-type" {
 		must(h.Digest.Add(types.ConsensusDigest{ConsensusEngineID: types.BabeEngineID, Data: sig}))
@@ -534,7 +540,7 @@ func c24case(t *rapid.T) {
 		}
 	}
 	if pick("f-seal", 6) {
-		b.sealMode = rapid.SampledFrom([]string{"modified-number", "modified-root", "modified-digest", "tampered", "missing", "not-last", "wrong-type"}).Draw(t, "sealmode")
+		b.sealMode = rapid.SampledFrom([]string{"modified-number", "modified-root", "modified-digest", "tampered", "missing", "not-last", "wrong-type", "inserted-seal-item", "inserted-foreign-seal-item"}).Draw(t, "sealmode")
 		fault("seal:" + b.sealMode)
 	}
 	if pick("f-nopre", 25) {
